@@ -202,6 +202,7 @@ func (p c01) Run(w *mon.Worker, idx int) mon.Result {
 		res.Detail = fmt.Sprintf("results differ\n expected %s\n observed %s", clipStr(showResults(want), 600), clipStr(showResults(got), 600))
 	}
 	// a mismatch: is it exactly one of the recorded deviations?
+	quirkVivifies := false
 	if !tr.WouldVivify {
 		for _, q := range []struct {
 			q  ref.Quirks
@@ -211,7 +212,11 @@ func (p c01) Run(w *mon.Worker, idx int) mon.Result {
 			{ref.Quirks{UnionSelfOnce: true}, "C01-union-of-self-and-self-yields-once"},
 			{ref.Quirks{EmptyObjOnce: true, UnionSelfOnce: true}, "C01-empty-object-literal-yields-once"},
 		} {
-			qw, qerr := ref.Eval(e, []*ref.V{doc.Copy()}, ref.Env{T: &ref.Trace{}, Q: q.q})
+			qt := &ref.Trace{}
+			qw, qerr := ref.Eval(e, []*ref.V{doc.Copy()}, ref.Env{T: qt, Q: q.q})
+			if qt.WouldVivify {
+				quirkVivifies = true // with the recorded deviation switched on, a read traversal in a writable context misses: unmodelled side effect
+			}
 			if (qerr != nil) != (yerr != nil) {
 				continue
 			}
@@ -226,7 +231,7 @@ func (p c01) Run(w *mon.Worker, idx int) mon.Result {
 			return res
 		}
 	}
-	if tr.WouldVivify {
+	if tr.WouldVivify || quirkVivifies {
 		res.Verdict = mon.Inconclusive
 		res.Tags = append(res.Tags, "vivify_unmodelled")
 		return res
